@@ -25,6 +25,11 @@ func prims(s string) map[string]bool {
 
 func config(name string) pmc.Cfg {
 	c := pmc.Cfg{Name: name, MaxView: 2, Alphabet: []string{"A", "B"}, Heights: 1}
+	if i := strings.Index(name, "^2"); i >= 0 { // "K2^2@v0e": two heights (nodes go on to height 2 after their first commit)
+		base := config(name[:i] + name[i+2:])
+		base.Name, base.Heights = name, 2
+		return base
+	}
 	if strings.HasSuffix(name, "~d") { // "K1~d": storage returns multi-element results in DESCENDING sender order
 		base := config(strings.TrimSuffix(name, "~d"))
 		base.Name, base.Desc = name, true
@@ -160,6 +165,8 @@ func plan(prop, tier string) []run {
 		add("K3~d", "M1", 0, 10*time.Second)    // weighted committee, descending storage order
 		add("K1@v1", "M1", -1, 10*time.Second)  // L2: every single-delivery order (no flush macro), one view change
 		add("K2@v0e", "M2", -1, 15*time.Second) // L2 under an equivocating proposer
+		add("K2^2@v0e", "M2", 0, 15*time.Second) // two heights, equivocating proposer at both: exhaustive
+		add("K1^2@v1", "M1", 0, 15*time.Second)  // two heights with a view change: exhaustive
 		add("K2", "M2", 0, 12*time.Second)
 		add("K1", "MALL", 0, 15*time.Second)
 		add("K2", "MALL", 0, 15*time.Second)
